@@ -320,7 +320,11 @@ def execute(case):
     if kind == "glyphmap":
         r = glyphmap_shard({"words": [case["word"]]})
         return [bad(c, d, s) for c, cs, d, s in r["violations"] if cs.get("where") == case.get("where", cs.get("where"))] or [ok("C10.glyphmap-roundtrip")]
-    return [bad("C10.replay", "re-run the check")]
+    if kind in ("name", "name-pair", "filename"):
+        from vmc.props import c04
+
+        return c04.exec_pure(case, prefix="C10")
+    return [bad("C10.replay", f"unknown case kind {kind}")]
 
 
 def run(report, tier, only=None):
